@@ -28,6 +28,7 @@ static const char *probe(volatile unsigned char *p, int write) {
 }
 static void le64(unsigned long long v, unsigned char o[8]) { for (int i = 0; i < 8; i++) o[i] = (unsigned char) (v >> (8 * i)); }
 
+static void returning_handler(int s) { (void) s; }
 int main(int argc, char **argv) {
     if (argc < 3) return 3;
     FILE *sc = fopen(argv[1], "r"); if (!sc) return 3;
@@ -75,7 +76,13 @@ int main(int argc, char **argv) {
         } else if (line[0] == 'F' && user) {
             fflush(v_out);
             pid_t pid = fork();
-            if (pid == 0) { signal(SIGSEGV, SIG_DFL); signal(SIGABRT, SIG_DFL); signal(SIGBUS, SIG_DFL); sodium_free(user); _exit(0); }
+            /* the signal state of the thread that frees: default / SIGSEGV blocked / SIGSEGV ignored / a SIGSEGV handler that returns.
+             * An altered canary must terminate the process in every one of them. */
+            if (pid == 0) { signal(SIGSEGV, SIG_DFL); signal(SIGABRT, SIG_DFL); signal(SIGBUS, SIG_DFL);
+                if (line[1] == '1') { sigset_t ss; sigemptyset(&ss); sigaddset(&ss, SIGSEGV); sigprocmask(SIG_BLOCK, &ss, NULL); }
+                else if (line[1] == '2') signal(SIGSEGV, SIG_IGN);
+                else if (line[1] == '3') signal(SIGSEGV, returning_handler);
+                sodium_free(user); _exit(0); }
             int st = 0; waitpid(pid, &st, 0);
             int killed = WIFSIGNALED(st);
             int unmapped = 0;
